@@ -168,6 +168,15 @@ func (r *Runner) checkProperty(spec *PropSpec) int {
 		violations++
 		violationLines = append(violationLines, fmt.Sprintf("VIOLATION property=%s replay=%s no-failing-input-found", spec.ID, writeLoadFailure(r.verif, spec.ID, fmt.Errorf("zero obligations generated"))))
 	}
+	// thorough tier: the facts the tool evaluated itself (ground obligations) are checked again at run time on the
+	// compiled package, and the hand-written witness tests of the contracts under this property are run
+	var cross map[string]interface{}
+	if r.tier == "thorough" {
+		var lines []string
+		cross, lines = r.crossChecks(spec.ID, res)
+		violations += len(lines)
+		violationLines = append(violationLines, lines...)
+	}
 
 	level := spec.Level
 	if level == "" {
@@ -230,6 +239,9 @@ func (r *Runner) checkProperty(spec *PropSpec) int {
 	if len(samples) == 0 {
 		ev.Coverage["samples"] = []interface{}{"(no non-trivial obligation discharged)"}
 	}
+	if cross != nil {
+		ev.Coverage["runtime_cross_checks"] = cross
+	}
 	os.MkdirAll(filepath.Join(r.verif, "evidence"), 0755)
 	b, _ := json.MarshalIndent(ev, "", " ")
 	os.WriteFile(filepath.Join(r.verif, "evidence", spec.ID+".json"), append(b, '\n'), 0644)
@@ -250,4 +262,120 @@ func (r *Runner) checkProperty(spec *PropSpec) int {
 func seedFromEnv() int {
 	n, _ := strconv.Atoi(os.Getenv("VERIF_SEED"))
 	return n
+}
+
+// crossChecks (thorough tier) re-establishes on the real, compiled package what the tool decided by reading the
+// sources: every ground obligation that has a run-time form is evaluated in an injected test (batched), and every
+// witness test attached to a contract of this property is run. A disagreement is a violation with the run's output
+// as the failing input.
+func (r *Runner) crossChecks(prop string, res *runResult) (map[string]interface{}, []string) {
+	type caseT struct {
+		name, body string
+	}
+	byPkg := map[string][]caseT{}
+	pkgName := map[string]string{}
+	for _, o := range res.obls {
+		if o.GroundTest == "" || o.GroundTest == "-" || o.fc == nil || o.fc.pkg == nil || !o.OK() {
+			continue
+		}
+		byPkg[o.fc.pkg.PkgPath] = append(byPkg[o.fc.pkg.PkgPath], caseT{o.Name, o.GroundTest})
+		pkgName[o.fc.pkg.PkgPath] = o.fc.pkg.Types.Name()
+	}
+	var lines []string
+	ran, held := 0, 0
+	failures := []string{}
+	record := func(name, reason, test, out, cmd string) {
+		dir := filepath.Join(r.verif, "replays", prop)
+		os.MkdirAll(dir, 0755)
+		path := filepath.Join(dir, sanitize(name)+"_runtime.json")
+		rec := ReplayRecord{Property: prop, Obligation: name, Kind: "runtime-cross-check", Verdict: "confirmed", Reason: reason, Test: test, Output: truncate(out, 3000), Command: cmd}
+		b, _ := json.MarshalIndent(rec, "", " ")
+		os.WriteFile(path, b, 0644)
+		lines = append(lines, fmt.Sprintf("VIOLATION property=%s replay=%s", prop, path))
+		failures = append(failures, name+": "+reason)
+		fmt.Printf("  run-time cross-check failed: %s: %s\n", name, reason)
+	}
+	for pkg, cases := range byPkg {
+		for start := 0; start < len(cases); start += 150 {
+			end := start + 150
+			if end > len(cases) {
+				end = len(cases)
+			}
+			var b strings.Builder
+			b.WriteString("package " + pkgName[pkg] + "\n\nimport (\n\t\"fmt\"\n\t\"testing\"\n)\n\nfunc TestVrfReplay(t *testing.T) {\n")
+			for _, c := range cases[start:end] {
+				b.WriteString("\tfunc() {\n\t\tfmt.Println(\"VRF-CASE " + c.name + "\")\n")
+				if pkgName[pkg] == "ipfix" {
+					b.WriteString("\t\tsaved := InfoModel\n\t\tdefer func() { InfoModel = saved }()\n")
+				}
+				b.WriteString("\t\t" + strings.ReplaceAll(c.body, "\n", "\n\t") + "\n\t}()\n")
+			}
+			b.WriteString("}\n")
+			out, cmd := runOverlayTest(r.w.RepoDir, pkg, b.String(), "TestVrfReplay")
+			cur := ""
+			seen := map[string]bool{}
+			for _, l := range strings.Split(out, "\n") {
+				l = strings.TrimSpace(l)
+				if strings.HasPrefix(l, "VRF-CASE ") {
+					cur = strings.TrimPrefix(l, "VRF-CASE ")
+				} else if strings.HasPrefix(l, "VRF-RESULT HOLDS") && cur != "" {
+					seen[cur] = true
+					ran++
+					held++
+				} else if strings.HasPrefix(l, "VRF-RESULT VIOLATED") && cur != "" {
+					seen[cur] = true
+					ran++
+					record(cur, "the compiled package disagrees with the fact the tool read from the sources: "+strings.TrimPrefix(l, "VRF-RESULT VIOLATED "), b.String(), out, cmd)
+				}
+			}
+			missing := 0
+			for _, c := range cases[start:end] {
+				if !seen[c.name] {
+					missing++
+				}
+			}
+			if missing > 0 {
+				record(fmt.Sprintf("%s.batch%d", pkgName[pkg], start/150), fmt.Sprintf("%d run-time checks produced no result (the injected test did not build or did not finish)", missing), b.String(), out, cmd)
+			}
+		}
+	}
+	// witness tests of the contracts under this property
+	witness, witnessOK := 0, 0
+	done := map[string]bool{}
+	for _, fc := range res.ctxs {
+		if fc.contract == nil || fc.contract.Opts["replaytest"] == "" || fc.pkg == nil {
+			continue
+		}
+		fs := strings.Fields(fc.contract.Opts["replaytest"])
+		for i := 0; i+1 < len(fs); i += 2 {
+			file := fs[i+1]
+			if done[file] {
+				continue
+			}
+			done[file] = true
+			src, err := os.ReadFile(filepath.Join(r.verif, "replaytests", file))
+			if err != nil {
+				continue
+			}
+			witness++
+			out, cmd := runOverlayTest(r.w.RepoDir, fc.pkg.PkgPath, string(src), "TestVrfReplay")
+			switch {
+			case strings.Contains(out, "VRF-RESULT VIOLATED"):
+				reason := "witness test shows the violation"
+				for _, l := range strings.Split(out, "\n") {
+					if strings.HasPrefix(strings.TrimSpace(l), "VRF-RESULT VIOLATED") {
+						reason = strings.TrimPrefix(strings.TrimSpace(l), "VRF-RESULT VIOLATED ")
+					}
+				}
+				record(fc.funcShort()+"#witness."+file, reason, string(src), out, cmd)
+			case strings.Contains(out, "VRF-RESULT HOLDS"):
+				witnessOK++
+			}
+		}
+	}
+	return map[string]interface{}{
+		"ground_facts_rechecked_at_run_time": ran, "ground_facts_held": held,
+		"witness_tests_run": witness, "witness_tests_held": witnessOK, "failures": failures,
+		"rule": "bounded: one execution of the compiled package per ground fact / witness test; not part of the proof, a cross-check of the tool's reading of the sources",
+	}, lines
 }
